@@ -31,8 +31,10 @@ def sized(value, bit_length=None):
 
     def or_(ex, self, other):
         return BIT_OR(self.fields['value'], toint(other.fields['value'] if isinstance(other, Obj) else other))
-    return Obj('SizedInteger', {'value': value, 'bitLength': bit_length},
-               {'setBitLength': set_len, '__len__': length, '__lshift__': lshift, '__ror__': ror, '__or__': or_}, name='SizedInteger')
+    o = Obj('SizedInteger', {'value': value, 'bitLength': bit_length},
+            {'setBitLength': set_len, '__len__': length, '__lshift__': lshift, '__ror__': ror, '__or__': or_}, name='SizedInteger')
+    o.methods['__bool__'] = lambda ex, self: toint(self.fields['value']) != 0        # an int: zero is falsy, whatever its bit length
+    return o
 
 
 def _sized_ctor(ex, x):
